@@ -527,6 +527,15 @@ func popOrder(ssn *framework.Session, action framework.ActionType) []string {
 // ProgCase runs the cycle and returns the KProg term. hide: pending jobs left
 // out of the class encoding (gangs of the minMember witness).
 func ProgCase(ps progSpec, cfg Config, tag string, hide map[string]bool) (term, label string, st map[string]int) {
+	term, label, st, _ = progCase(ps, cfg, tag, hide, nil)
+	return term, label, st
+}
+
+// progCase: as ProgCase; with an Evict-failure oracle (ev != nil; reclaim clusters) the session's cache
+// refuses the Evict calls the oracle selects, the pending jobs are listed in the REAL pop order of the
+// reclaim action (read off CanReclaimResources, the first thing the loop asks about a popped job) and the
+// result is a KRFault term (rfault.go).
+func progCase(ps progSpec, cfg Config, tag string, hide map[string]bool, ev *evictSpec) (term, label string, st map[string]int, rr *rfRun) {
 	st = map[string]int{}
 	c := ps.cluster
 	tree := ps.tree
@@ -536,6 +545,11 @@ func ProgCase(ps progSpec, cfg Config, tag string, hide map[string]bool) (term, 
 	b, tr := SetupTree(c, cfg, tree)
 	if tree == nil {
 		tree = deptTree(c, nil) // what cycle.Build opens
+	}
+	realPops := &[]string{}
+	if ev != nil {
+		installEvictFaults(b, *ev)
+		realPops = recordReclaimPops(b)
 	}
 	ids := core.NewIds()
 	for _, n := range c.Nodes {
@@ -607,6 +621,9 @@ func ProgCase(ps progSpec, cfg Config, tag string, hide map[string]bool) (term, 
 		if ai == len(c.Actions)-1 && ps.kind == 2 {
 			popped = popOrder(b.Ssn, framework.Preempt)
 		}
+		if ai == len(c.Actions)-1 && ps.kind == 1 && ev != nil {
+			popped = popOrder(b.Ssn, framework.Reclaim) // only for the jobs the action never popped
+		}
 		if pmsg := cycle.RunActions(b, []string{a}); pmsg != "" {
 			st["PANIC"]++
 			fmt.Fprintf(os.Stderr, "PANIC in actions: %s\n  cluster: %s\n", pmsg, cycle.Describe(c))
@@ -615,11 +632,15 @@ func ProgCase(ps progSpec, cfg Config, tag string, hide map[string]bool) (term, 
 	}
 	tr.Finish(b)
 	calls := b.Rec.Calls()
-	var evs, pipes []string
+	var evs, pipes, evobs []string
 	var evOrder []string
 	for _, cl := range calls {
 		switch cl.Kind {
+		case "evictfail":
+			evOrder = append(evOrder, jobOfPod[cl.Pod])
+			evobs = append(evobs, fmt.Sprintf("(mkEO %s %s false)", u.Pos(ids.Of("j:"+jobOfPod[cl.Pod])), u.Pos(ids.Of("j:"+cl.Preemptor))))
 		case "evict":
+			evobs = append(evobs, fmt.Sprintf("(mkEO %s %s true)", u.Pos(ids.Of("j:"+jobOfPod[cl.Pod])), u.Pos(ids.Of("j:"+cl.Preemptor))))
 			evs = append(evs, u.Pair(u.Pos(ids.Of("j:"+jobOfPod[cl.Pod])), u.Pos(ids.Of("j:"+cl.Preemptor))))
 			evOrder = append(evOrder, jobOfPod[cl.Pod])
 		case "pipe":
@@ -692,12 +713,43 @@ func ProgCase(ps progSpec, cfg Config, tag string, hide map[string]bool) (term, 
 		}
 		sort.SliceStable(pend, func(a, b int) bool { return pos[pend[a].Name] < pos[pend[b].Name] })
 	}
+	// reclaim under Evict faults: the real pop order (read off the action itself as it ran); the jobs the
+	// action never popped follow in the order of JobsOrderByQueues before the action
+	if ev != nil && ps.kind == 1 {
+		pos := map[string]int{}
+		for _, n := range *realPops {
+			if pos[n] == 0 {
+				pos[n] = len(pos) + 1
+			}
+		}
+		k := len(pos)
+		for _, n := range popped {
+			if pos[n] == 0 {
+				k++
+				pos[n] = k
+				st["rfault:pending-never-popped"]++
+			}
+		}
+		for _, j := range pend {
+			if pos[j.Name] == 0 {
+				st["pending-not-in-pop-order"]++
+				k++
+				pos[j.Name] = k
+			}
+		}
+		sort.SliceStable(pend, func(a, b int) bool { return pos[pend[a].Name] < pos[pend[b].Name] })
+	}
 	for _, j := range pend {
 		pending = append(pending, fmt.Sprintf("(mkPJ %s %s %s %s %s)", u.Pos(ids.Of("j:"+j.Name)), u.Pos(ids.Of("q:"+j.Queue)),
 			u.Z(int64(j.Priority)), u.Bool(preemptible(j)), u.Pos(7)))
 	}
 	term = fmt.Sprintf("(KProg (mkPC %s %s %s %s %s %s %s %s %s))", u.Nat(ps.kind), u.Bool(cfg.Sigs), u.Z(total), u.List(units),
 		u.List(queues), u.List(running), u.List(pending), u.List(evs), u.List(pipes))
+	if ev != nil {
+		rr = rfaultTerms(b, c, ids, calls, jobOfPod, st)
+		term = fmt.Sprintf("(KRFault (mkRFC %s %s %s))", term[len("(KProg "):len(term)-1], u.List(evobs), rr.statusTerm)
+		tag += "evict-oracle=" + ev.String() + " "
+	}
 	kind := "reclaim"
 	if ps.kind == 2 {
 		kind = "preempt"
@@ -787,5 +839,5 @@ func ProgCase(ps progSpec, cfg Config, tag string, hide map[string]bool) (term, 
 	if len(evs) > 0 {
 		st["cycles-with-eviction"]++
 	}
-	return term, label, st
+	return term, label, st, rr
 }
